@@ -31,6 +31,29 @@ def model_check(ctx, quick):
     rep.notes["negative_control"] = "StateAlign_aswas.cfg (first state keeps score 0) violates TotalIsPathScore as expected"
 
 
+def two_utterance_case(rng, idx):
+    """two utterances on one decoder; in the second (longer) one the FIRST alignment request comes exactly when as
+    many frames have been searched as the first utterance's alignment covered (the decoder's "nothing has changed"
+    test looks only at that count): the alignment of the earlier utterance must not resurface"""
+    cfg = {"hmm": os.path.join(sut.REPO, "model", "en-us"),
+           "dict": os.path.join(sut.REPO, "tests", "data", "turtle.dic"), "loglevel": "FATAL"}
+    s = list(decmatrix.audio_defs()) + ["init " + decmatrix.hx(json.dumps(cfg)),
+                                        "align " + decmatrix.hx("go forward ten meters")]
+    n1 = decmatrix.AUDIO_LEN["gf"]
+    frames1 = 1 + (n1 - 410) // 160 + 1
+    s += ["start", "feed gf 0 -1 i16 0 %d" % rng.choice([0, 1]), "end", "result fin", "alignment fin"]
+    lead = 410 + (frames1 - 12) * 160
+    a2 = "silgf"
+    s += ["start", "feed %s 0 %d i16 0 0" % (a2, lead)]
+    off = lead
+    for k in range(24):
+        s.append("feed %s %d 160 i16 0 0" % (a2, off))
+        off += 160
+        s += ["if %d result hit" % frames1, "if %d alignment hit" % frames1]
+    s += ["feed %s %d -1 i16 0 0" % (a2, off), "end", "result fin", "alignment fin", "free"]
+    return "two-utterances#%d" % idx, s
+
+
 def classify(f):
     clause = f.clause or "unknown-clause"
     return "align:" + clause
@@ -56,6 +79,8 @@ def run(ctx):
                 opts["config"] = {"compallsen": True, "beam": 0, "pbeam": 0, "wbeam": 0}
                 opts["audio"] = rng.choice(["gf", "head", "mid", "cut", "tail", "t4", "t5", "quiet"])
             cases.append(decmatrix.make_case(rng, ctx, i, {"result", "partial", "alignment"}, opts))
+        for j in range(2 if quick else 12):
+            cases.append(two_utterance_case(rng, n + j))
     by_id = dict(cases)
     chunks, crashes = decmatrix.run_cases(ctx, drv, cases)
     for eid, why in crashes:
